@@ -187,6 +187,9 @@ func (w *World) GenVC(fn *ssa.Function, ct *Contract, opts ...func(*Engine)) (re
 			}
 		}
 	}
+	if ct != nil && ct.Tokens {
+		e.UseTokens = true
+	}
 	e.checkFmtSelfRecursion(fn, st)
 	entryAssumes := len(e.Assumes)
 	rets, exit, fr := e.execFuncTop(fn, args, binds, st, ct)
@@ -212,6 +215,9 @@ func (w *World) GenVC(fn *ssa.Function, ct *Contract, opts ...func(*Engine)) (re
 		e.bindLets(ctx)
 		var earlier []*smt.Term
 		for i, cl := range ct.Ensures {
+			if !e.UseTokens && usesTokens(cl) {
+				continue
+			}
 			t := ctx.boolean(cl.Expr, cl.Text)
 			// A ==> (B && C) is checked as A ==> B and A ==> C: smaller queries, same meaning
 			parts := splitConj(e.C, t)
@@ -370,9 +376,18 @@ func (e *Engine) applyContract(f *frame, st *State, ct *Contract, fn *ssa.Functi
 	}
 	post := &evalCtx{e: e, f: pf, st: st, old: pre, results: rets, bound: ctx.bound, pkg: pkg}
 	for _, cl := range ct.Ensures {
+		if !e.UseTokens && usesTokens(cl) {
+			continue
+		}
+		if e.UseTokens && byteLevel(cl) {
+			continue
+		}
 		e.assume(st, post.boolean(cl.Expr, cl.Text))
 	}
 	for _, cl := range ct.Assumes {
+		if !e.UseTokens && usesTokens(cl) {
+			continue
+		}
 		e.assume(st, post.boolean(cl.Expr, cl.Text))
 		e.note("ASSUMED (not checked against implementations) about " + key + ": " + cl.Text)
 	}
